@@ -275,7 +275,7 @@ func Verif_C03_TokenStep() {
 	rt.Assert(rt.RedisPTTL(lim.tokenKey) > 0 && rt.RedisPTTL(lim.timestampKey) > 0, "bucket keys always carry a positive TTL")
 }
 
-//verif:entry tier=quick,thorough cover=storedown,ctxdone,afterdown
+//verif:entry tier=quick,thorough cover=storedown,ctxdone,ctxdeadline,afterdown
 //verif:stub (*golang.org/x/time/rate.Limiter).AllowN c03AllowN
 //verif:doc TokenLimiter faults: store unreachable => the answer is exactly the private limiter's AllowN(now, n) (built with the same burst and rate), never a constant grant; cancelled/expired context => false; once marked down, later calls use the private limiter without touching the store.
 func Verif_C03_TokenFaults() {
@@ -289,10 +289,16 @@ func Verif_C03_TokenFaults() {
 	now := time.Unix(rt.Int("now_s", 1, 1<<33), 0)
 	if rt.Bool("cancelled") {
 		ctx, cancel := context.WithCancel(context.Background())
+		if rt.Bool("deadline") {
+			// a context whose deadline has already passed: ctx.Err() == DeadlineExceeded
+			ctx, cancel = context.WithDeadline(context.Background(), time.Unix(1, 0))
+			rt.Cover("ctxdeadline")
+		}
 		cancel()
 		rt.Cover("ctxdone")
 		got := lim.AllowNCtx(ctx, now, int(n))
-		rt.Assert(!got, "a cancelled context is never a grant")
+		rt.Assert(!got, "a cancelled or expired context is never a grant")
+		rt.Assert(lim.redisAlive == 1 && !lim.monitorStarted, "a context error does not mark the store as down")
 		rt.Assert(c03RescueCalls == 0, "context errors do not consult the private limiter")
 		return
 	}
